@@ -282,6 +282,13 @@ func ruleC13(w *World, r *Report) {
 	}
 	// header SEID and DownlinkDataReport stores dominate the send
 	seidOK, ddrOK := false, false
+	// the header SEID of the message sent is the one the constructor was given unless it is written
+	// afterwards; every later write is judged below (a write of anything else is reported there), so a
+	// constructor that is handed the stored remote SEID sets the header as well as a write does
+	if seid := ctorArg(ctor, "seid"); seid != nil {
+		s := symOf(seid).String()
+		seidOK = strings.HasSuffix(s, ".remoteSEID") && strings.Contains(s, "GetSession#0(")
+	}
 	allInstrs(h, func(i ssa.Instruction) {
 		st, ok := i.(*ssa.Store)
 		if !ok {
@@ -844,12 +851,57 @@ func ruleC13SingleCaller(w *World, r *Report) {
 					local = false
 				}
 			}
+			// ... or made for it: whoever starts this function makes a notifier for that start and keeps nothing of it
+			if !local && len(ci.Common().Args) > 0 {
+				local = notifierHandedOver(w, f, ci.Common().Args[0], newN)
+			}
 			if g == notify {
 				r.check(local, "R13.6", w.FuncName(f), "the notifier is created by the goroutine that uses it", w.Pos(i.Pos()), "NewDownlinkDataNotifier in the same function", "Notify is called on a notifier that was not created in this function (captured or shared): the limiter's map is then reachable from more than one goroutine")
 			}
 		})
 	}
 	r.floor("R13.6 callers of Notify / shouldNotify", n, 2)
+}
+
+// notifierHandedOver: n is a parameter of f, and every call of f (plain, go or defer; f is never used as a
+// function value) is given a notifier that the caller has just created, refers to nowhere else, and creates
+// anew before it can start f again — so each run of f has a notifier that nothing else can reach, exactly
+// as if f had created it in its first statement.
+func notifierHandedOver(w *World, f *ssa.Function, n ssa.Value, newN *ssa.Function) bool {
+	p, ok := n.(*ssa.Parameter)
+	if !ok || p.Parent() != f {
+		return false
+	}
+	at := -1
+	for i, fp := range f.Params {
+		if fp == p {
+			at = i
+		}
+	}
+	in := w.CG().callersOf(f)
+	if at < 0 || len(in) == 0 {
+		return false
+	}
+	for _, e := range in {
+		site, ok := e.Site.(ssa.CallInstruction)
+		if !ok || e.Kind == "funcarg" || site.Common().StaticCallee() != f || at >= len(site.Common().Args) {
+			return false
+		}
+		mk, ok := site.Common().Args[at].(*ssa.Call)
+		if !ok || staticCallee(mk) != newN || mk.Referrers() == nil {
+			return false
+		}
+		for _, ref := range *mk.Referrers() {
+			if _, isDbg := ref.(*ssa.DebugRef); !isDbg && ref != e.Site {
+				return false // the creator keeps or shares the notifier
+			}
+		}
+		restarted := reach(e.Caller, e.Site, func(i ssa.Instruction) bool { return i == e.Site }, func(i ssa.Instruction) bool { return i == ssa.Instruction(mk) }, nil) != nil
+		if restarted {
+			return false // one notifier, several runs of f
+		}
+	}
+	return true
 }
 
 // ruleC13ListenerStarts (R13.7): once the BESS notification socket is connected, the goroutine that
